@@ -137,6 +137,9 @@ def first_broken_theorem(build_output: str) -> str:
     return f"{name or '?'} ({os.path.relpath(full, LEAN_DIR)}:{line}: {msg[:200]})"
 
 
+LEANCHECKER: list[str] = ["not run (quick tier)"]
+
+
 def audit_axioms(module: str, theorems: list[str]) -> tuple[dict[str, list[str]], str]:
     """#print axioms for each theorem -> {theorem: [axioms]} ; missing => not proved."""
     os.makedirs(os.path.join(LEAN_DIR, ".audit"), exist_ok=True)
@@ -283,6 +286,15 @@ def run_check(prop: str, tier: str, seed: int, replay_path: str | None = None) -
         hits = grep_forbidden(lean_sources())
         if hits and t_fail is None:
             t_fail = f"forbidden token in Lean sources: {hits[0]}"
+        if tier == "thorough" and t_fail is None:
+            # independent re-check of the compiled property module (and what it imports) by the toolchain's kernel re-checker
+            try:
+                lc = _run(["lake", "env", "leanchecker", f"WfProps.{prop}"], LEAN_DIR, timeout=1800)
+                LEANCHECKER[0] = "ok" if lc.returncode == 0 else f"rejected: {(lc.stdout + lc.stderr).strip()[-300:]}"
+                if lc.returncode != 0:
+                    t_fail = f"leanchecker rejected WfProps.{prop}: {(lc.stdout + lc.stderr).strip()[-200:]}"
+            except Exception as e:  # noqa: BLE001 - tool missing / timeout: recorded, not fatal
+                LEANCHECKER[0] = f"not run: {type(e).__name__}"
     discharged = 0 if not ok else sum(1 for t in theorems if t in axioms and set(axioms[t]) <= ALLOWED_AXIOMS)
     fcntl.flock(_lock, fcntl.LOCK_UN)
     _lock.close()
@@ -348,6 +360,7 @@ def run_check(prop: str, tier: str, seed: int, replay_path: str | None = None) -
             "trusted_base": TRUSTED_BASE + list(getattr(mod, "TRUSTED_EXTRA", [])),
             "theorems": {t: axioms.get(t) for t in theorems},
             "theorem_broken": t_fail,
+            "leanchecker": LEANCHECKER[0],
             "evaluations": outcome.evaluations,
             "distinct_nontrivial": len(outcome.distinct),
             "rule": outcome.rule,
